@@ -149,6 +149,45 @@ def ob_service(h):
         h.check("targets_non_negative", all((_val(t["Qh"]) >= -1e-6 and _val(t["Qc"]) >= -1e-6 and _val(t["Qr"]) >= -1e-6) for t in d["targets"]))
 
 
+TREES = {
+    "root_without_children_entry": {"name": "Plant", "type": "Site"},
+    "root_children_null": {"name": "Plant", "type": "Site", "children": None},
+    "root_children_empty": {"name": "Plant", "type": "Site", "children": []},
+    "flat": {"name": "Plant", "type": "Site", "children": [{"name": "A", "type": "Process Zone"}, {"name": "B", "type": "Process Zone"}]},
+    "generic_three_levels": {"name": "Plant", "type": "Zone", "children": [{"name": "A", "type": "Zone", "children": [{"name": "U1", "type": "Zone"}]}, {"name": "B", "type": "Zone"}]},
+}
+TREE_LABELS = {"root_without_children_entry": ["Plant"], "root_children_null": ["Plant"], "root_children_empty": ["Plant"], "flat": ["A", "B", "Plant"],
+               "generic_three_levels": ["A/U1", "U1", "B", "Plant"]}
+
+
+def ob_zone_tree(h):
+    """The optional zone tree of the request: every legal way of writing a tree, streams labelled with zones of that tree."""
+    kind = h.choice("zone_tree", list(TREES))
+    labels = TREE_LABELS[kind]
+    l0 = h.choice("label_of_first_stream", list(range(4)))
+    l1 = h.choice("label_of_second_stream", list(range(4)))
+    given_as = h.choice("given_as", ["dictionary", "validated_model"])
+    if l0 >= len(labels) or l1 >= len(labels):
+        return
+    with native():
+        streams = [dict(zone=labels[l0], name="H1", t_supply=200.0, t_target=100.0, heat_flow=1000.0, dt_cont=5.0, htc=1.0),
+                   dict(zone=labels[l1], name="C1", t_supply=50.0, t_target=180.0, heat_flow=1300.0, dt_cont=5.0, htc=1.0)]
+        prob = {"streams": streams, "utilities": [], "options": {}, "zone_tree": TREES[kind]}
+        mk = (lambda: json.loads(json.dumps(prob))) if given_as == "dictionary" else (lambda: main.TargetInput.model_validate(json.loads(json.dumps(prob))))
+        out1 = main.pinch_analysis_service(mk(), project_name="Plant")
+        out2 = main.pinch_analysis_service(mk(), project_name="Plant")
+        j1 = out1.model_dump_json()
+        d = json.loads(j1)
+        h.check("validates_against_the_output_schema", isinstance(TargetOutput.model_validate(d), TargetOutput))
+        h.check("identical_when_repeated", j1 == out2.model_dump_json())
+        h.check("only_finite_numbers", all(math.isfinite(x) for x in _numbers(d)) and "NaN" not in j1 and "Infinity" not in j1)
+        names = [t["name"] for t in d["targets"] if t["name"].endswith("/Direct Integration")]
+        want = {"Plant/Direct Integration"} | {f"{c['name']}/Direct Integration" for c in (TREES[kind].get("children") or [])}
+        h.check("one_direct_integration_record_per_site_and_process_zone", want <= set(names) and len(names) == len(set(names)))
+        site = [t for t in d["targets"] if t["name"] == "Plant/Direct Integration"][0]
+        h.check("site_record_carries_both_streams", abs(_val(site["Qh"]) - _val(site["Qc"]) - 300.0) < 1e-6)
+
+
 def _val(x):
     return x["value"] if isinstance(x, dict) else x
 
@@ -163,4 +202,8 @@ def obligations():
                       bound=f"{len(SHAPES)} degenerate problem shapes x {len(UTILS)} utility sets x {len(OPTIONS)} option sets, real service run natively twice each (exhaustive)",
                       doc="SERVICE output contract")
     obs += split(base, shape=list(SHAPES))
+    obs.append(Obligation("C14.zone_tree.b", ob_zone_tree, kind="smallscope", functions=[main.pinch_analysis_service], max_paths=100000, time_budget_s=900,
+                          bound=f"{len(TREES)} ways of writing a zone tree (root with no / null / empty children, flat, three generic levels) x stream labels naming zones of the tree x "
+                                "request given as dictionary / validated model (exhaustive)",
+                          doc="SERVICE output contract with the optional zone tree"))
     return obs
